@@ -213,24 +213,26 @@ inductive ReadOut where
 def mkRxn (r a p : List Str) : ReadOut :=
   if r.isEmpty && a.isEmpty && p.isEmpty then .error "ValueError" else .roles r a p
 
+/-- the reaction branch proper: `smi` = first token, `contract` = result of the CXSMILES analysis -/
+def readSmi (smi : Str) (contract : Option (List (List Nat))) : ReadOut :=
+  if !smi.contains chGt then .molecule else
+  match splitOn chGt smi with
+  | [r, a, p] =>
+    let recR := rolePieces r
+    let recA := rolePieces a
+    let recP := rolePieces p
+    match contract with
+    | some (g :: gs) =>
+      match contractRoles recR recA recP (g :: gs) with
+      | .ok (x, y, z) => mkRxn x y z
+      | .error e => .error e
+    | _ => mkRxn recR recA recP
+  | _ => .error "ValueError"
+
 /-- reaction branch of `smiles(text)`: the molecule strings per role (reactants, reagents, products) -/
 def readRxn (text : Str) : ReadOut :=
   match splitWs text with
   | [] => .error "ValueError"
-  | smi :: rest =>
-    let contract := contractOf (smi :: rest)
-    if !smi.contains chGt then .molecule else
-    match splitOn chGt smi with
-    | [r, a, p] =>
-      let recR := rolePieces r
-      let recA := rolePieces a
-      let recP := rolePieces p
-      match contract with
-      | some (g :: gs) =>
-        match contractRoles recR recA recP (g :: gs) with
-        | .ok (x, y, z) => mkRxn x y z
-        | .error e => .error e
-      | _ => mkRxn recR recA recP
-    | _ => .error "ValueError"
+  | smi :: rest => readSmi smi (contractOf (smi :: rest))
 
 end ChythonModel.Model.C15
